@@ -258,6 +258,11 @@ fn feed_case(rounds: &[Round], now_lag: u8, intervals: &[u16], other_pair: u8, c
     }
     for (i, r) in rounds.iter().enumerate() {
         t += [0u64, 0, 1, 15, 60, 900, 3600, 7][(r.dt as usize) % 8];
+        // one case in eight: the feed's very first round carries timestamp zero (a legal submission: not in the future, and
+        // nothing precedes it)
+        let t_round = if i == 0 && now_lag % 8 == 7 { 0 } else { t };
+        let t_keep = t;
+        let t = t_round;
         // one round in four repeats the previous price (feeds report unchanged prices all the time)
         let prev = pending.last().or(subs.last()).map(|x| x.1);
         let p = match prev {
@@ -294,6 +299,7 @@ fn feed_case(rounds: &[Round], now_lag: u8, intervals: &[u16], other_pair: u8, c
         if other_pair >= 4 && i % 2 == 0 {
             other(&mut deps, &env, t, 100 + i as u64);
         }
+        let _ = t_keep;
     }
     if subs.is_empty() {
         return;
